@@ -9,12 +9,20 @@ const fn trailing_zeros_large_shifted_by_one(words: &[Word]) -> usize
         ret + 1 < words@.len() * WORD_BITS_USIZE,
         bit_at(words@, ret + 1),
         forall|i: int| 1 <= i < ret + 1 ==> !bit_at(words@, i),
+        // the same in numbers
+        (val(words@) / pow2(ret + 1)) % 2 == 1,
+        forall|i: int| 1 <= i < ret + 1 ==> (val(words@) / pow2(i)) % 2 != 1,
 @*/
 {
     debug_assert!(words.len() >= 2);
     let zero_begin = (words[0] >> 1).trailing_zeros() as usize;
     if zero_begin < (WORD_BITS_USIZE - 1) {
-        /*@ proof { lemma_bits_shr1_small(words@, zero_begin as u32); } @*/
+        /*@ proof {
+            lemma_bits_shr1_small(words@, zero_begin as u32);
+            let r = zero_begin as int + 1;
+            lemma_bits_bit_at_val(words@, r);
+            assert forall|i: int| 1 <= i < r implies (val(words@) / pow2(i)) % 2 != 1 by { lemma_bits_bit_at_val(words@, i); }
+        } @*/
         zero_begin
     } else {
         /*@ proof { lemma_bits_shr1_large(words@, zero_begin as u32); } @*/
@@ -36,7 +44,12 @@ const fn trailing_zeros_large_shifted_by_one(words: &[Word]) -> usize
         }
 
         let zero_bits = words[zero_words].trailing_zeros() as usize;
-        /*@ proof { lemma_bits_first_set(words@, 1, zero_words as int, zero_bits as u32); } @*/
+        /*@ proof {
+            lemma_bits_first_set(words@, 1, zero_words as int, zero_bits as u32);
+            let r = zero_words as int * WORD_BITS_USIZE as int + zero_bits as int;
+            lemma_bits_bit_at_val(words@, r);
+            assert forall|i: int| 1 <= i < r implies (val(words@) / pow2(i)) % 2 != 1 by { lemma_bits_bit_at_val(words@, i); }
+        } @*/
         (zero_words - 1) * WORD_BITS_USIZE + zero_bits + zero_begin - 1
     }
 }
